@@ -294,11 +294,10 @@ static void case_history(Rng& rng, uint64_t index)
 		else
 		{	// assignment between used objects
 			size_t a = rng.below(pool.size()), b = rng.below(pool.size());
-			if(a != b)
-			{
-				pool[a].obj = pool[b].obj;
-				pool[a].P	= pool[b].P;
-			}
+			// a == b: assignment of an object to itself (through a reference, as it happens with pool[i] = pool[j]) must leave it as it is
+			const Interpolation& src = pool[b].obj;
+			pool[a].obj				 = src;
+			pool[a].P				 = pool[b].P;
 		}
 	}
 	uint64_t hunts = ticks("Locate.hunt") - hunts0;
@@ -441,8 +440,9 @@ static void case_history_2d(Rng& rng, uint64_t index)
 		else
 		{
 			size_t a = rng.below(pool.size()), b = rng.below(pool.size());
-			if(a != b)
-				pool[a].obj = pool[b].obj, pool[a].P = pool[b].P;
+			const Interpolation_2D& src = pool[b].obj;	 // a == b: self-assignment through a reference
+			pool[a].obj					= src;
+			pool[a].P					= pool[b].P;
 		}
 	}
 	if(index % 97 == 0)
